@@ -228,7 +228,7 @@ pub fn run(run: &Run) {
     );
     run.assume("reference: trunc((value as f64) * (quantization as f64)) + offset in i128, asserted only inside the window the statement fixes (product finite and >= 0, sum in 0..2^63, value an 8..64-bit integer); outside it only 'no panic' and 'Some implies fixed-point kind with data and integer value'");
     run.regressions(&replay);
-    run.random("random", run.cases(2_000_000, 40_000_000), 0.15, strategy, check);
+    run.random("random", run.cases(4_000_000, 60_000_000), 0.15, strategy, check);
 }
 
 pub fn replay(_section: &str, case: &Json) -> Option<CheckResult> {
